@@ -7,6 +7,7 @@
                   operation, tabs = tables written (skip = 1 where the point was cut short)
      out          <<"ok", value, executed tasks>> | <<"error", type, executed>> | <<"crashed", "", _>>
      role         recording | fault | crash | recovery;  fresh = value returned on an empty backend
+     var          workload variant: 0 = chain, 1 = child and grandchild run with prov=False
    Every record is an initial state; the model is stepped from `pre` under the same injection
    and must pass exactly the recorded points and end with the recorded outcome and tables:
    "ACC {tid, devs}" is printed when some resolution of the model's nondeterminism (foreign-key
@@ -29,10 +30,12 @@ MerkleGhost(db) == UNION {{<<n, x>> : x \in NodeTasks(n)} : n \in db.Node}
 InitOf(t, inj) ==
   LET db == TabOf(t.pre)
       S0 == State0(db, t.pre.NodeSeq, t.reg, inj, MerkleGhost(db))
-  IN StartRun([S0 EXCEPT !.run.no = t.no - 1, !.injrun = t.no], 0)
+  IN StartRun([S0 EXCEPT !.run.no = t.no - 1, !.injrun = t.no, !.noprov = (t.var = 1)], 0)
 
-\* what the fault-free recording run leaves behind (fault runs always start from the empty backend)
-FaultFree == RunToEnd(StartRun(State0(EmptyT, <<>>, <<1, 1, 1>>, NoInj, {}), 0), 400)
+\* what the fault-free recording run leaves behind (fault runs always start from the empty backend):
+\* FaultFreeEnd of Backend.tla, per workload variant (var = 1: child and grandchild without provenance)
+FF0 == FaultFreeEnd(FALSE)
+FF1 == FaultFreeEnd(TRUE)
 
 \* ---- the property's predicates on the logged data ----
 NoStr(n) == CASE n = 1 -> "1" [] n = 2 -> "2" [] n = 3 -> "3" [] OTHER -> "4"
@@ -42,9 +45,11 @@ Con(t) ==
       okfresh == t.out[1] = "ok" /\ t.out[2] = t.fresh
       pj == NoStr(t.no) \o "P"
       pend == {e \in post.JobEnd : e[1] = pj /\ e[2] # <<>>}
+      \* the parent's job was answered by ultimate reduction: nothing ran and nothing was looked up
+      \* beneath it (jobs without provenance leave no Job row but always execute)
       hitP == /\ t.out[1] = "ok" /\ "P" \notin exe /\ pend # {}
-              /\ ~\E j \in post.Job : j[1] = NoStr(t.no) \o "C"
-      ff == FaultFree
+              /\ IF t.var = 1 THEN "C" \notin exe ELSE ~\E j \in post.Job : j[1] = NoStr(t.no) \o "C"
+      ff == IF t.var = 1 THEN FF1 ELSE FF0
   IN [fk |-> FKClosed(TabOf(t.pre)) => FKClosed(post),
       fresh |-> (t.role = "recovery") => okfresh,
       survives |-> (t.role = "fault") => okfresh,
@@ -59,7 +64,8 @@ Con(t) ==
 \* the destination must be exactly Imported(source)
 TInit == /\ tid \in 1..Len(Traces)
          /\ IF Traces[tid].role = "import"
-            THEN /\ s = State0(TabOf(Traces[tid].pre), Traces[tid].pre.NodeSeq, Traces[tid].reg, NoInj, {})
+            THEN /\ s = [State0(TabOf(Traces[tid].pre), Traces[tid].pre.NodeSeq, Traces[tid].reg, NoInj, {})
+                           EXCEPT !.noprov = (Traces[tid].var = 1)]
                  /\ PrintT("IMP " \o ToJson([tid |-> tid,
                                               ok |-> Imported(TabOf(Traces[tid].pre)) = TabOf(Traces[tid].post),
                                               fk |-> FKClosed(TabOf(Traces[tid].post))]))
@@ -83,9 +89,9 @@ EndOK(t, S2) ==
 
 TNext ==
   /\ Running(s) /\ tid' = tid
-  /\ \E enforce \in BOOLEAN :
+  /\ \E enforce \in BOOLEAN, pick \in Choices(s) :
        LET t == Traces[tid]
-           S2 == Step(s, enforce) IN
+           S2 == Step(s, enforce, pick) IN
          IF PtOK(t, S2) /\ EndOK(t, S2)
          THEN /\ s' = S2
               /\ (~Running(S2)) => PrintT("ACC " \o ToJson([tid |-> tid, devs |-> S2.devs]))
